@@ -152,6 +152,117 @@ theorem unmet_named (mk : Marks) (t : Nat) (os : Outcomes) (sb : Sideband) (h : 
   split at hcl <;> try split at hcl <;> try split at hcl
   all_goals simp_all
 
+private theorem mergeOne_self (mk : Marks) (os : Outcomes) (n : String) :
+    ∃ o, (n, o) ∈ mergeOne mk os n ∧ Failed o := by
+  unfold mergeOne
+  cases ho : get? os n with
+  | some o =>
+    refine ⟨_, mem_put_self _ _ _, ?_⟩
+    simp only [Failed]
+    split
+    · simp
+    · assumption
+  | none => exact ⟨_, mem_put_self _ _ _, by simp [Failed]⟩
+
+private theorem mergeOne_keeps (mk : Marks) (os : Outcomes) (n m : String)
+    (h : ∃ o, (n, o) ∈ os ∧ Failed o) : ∃ o, (n, o) ∈ mergeOne mk os m ∧ Failed o := by
+  by_cases hmn : m = n
+  · subst hmn; exact mergeOne_self mk os m
+  · obtain ⟨o, ho, hf⟩ := h
+    refine ⟨o, ?_, hf⟩
+    unfold mergeOne
+    cases get? os m with
+    | some o' => exact mem_put_of_ne _ _ _ _ _ (fun e => hmn e.symm) ho
+    | none => exact mem_put_of_ne _ _ _ _ _ (fun e => hmn e.symm) ho
+
+private theorem merged_failed (mk : Marks) (sb : Sideband) (os : Outcomes) (n : String)
+    (h : (∃ o, (n, o) ∈ os ∧ Failed o) ∨ ∃ msg, (n, msg) ∈ sb) :
+    ∃ o, (n, o) ∈ merged mk os sb ∧ Failed o := by
+  unfold processSideband
+  induction sb generalizing os with
+  | nil =>
+    rcases h with h | ⟨_, h⟩
+    · exact h
+    · cases h
+  | cons e t ih =>
+    apply ih
+    rcases h with h | ⟨msg, h⟩
+    · exact Or.inl (mergeOne_keeps mk os n e.1 h)
+    · rcases List.mem_cons.1 h with h | h
+      · left; rw [← h]; exact mergeOne_self mk os n
+      · exact Or.inr ⟨msg, h⟩
+
+/-- Peer feedback turns a case into a failed one: a case with feedback has, when `report` looks,
+an outcome that failed; unless it is marked known-failing or known-flaky the run does not
+succeed and the case is named `FAILED` (or counted among those that could not be run). -/
+theorem feedback_fails (mk : Marks) (t : Nat) (os : Outcomes) (sb : Sideband) (h : WF os)
+    (n msg : String) (hn : (n, msg) ∈ sb) :
+    ∃ o, (n, o) ∈ merged mk os sb ∧ Failed o ∧
+      (o.knownFailing = false → o.knownFlaky = false →
+        (report mk t os sb).ok = false ∧
+        (o.failure = .couldNotRun ∨ n ∈ (report mk t os sb).failedNames)) := by
+  obtain ⟨o, hm, hf⟩ := merged_failed mk sb os n (Or.inr ⟨msg, hn⟩)
+  refine ⟨o, hm, hf, fun h1 h2 => ?_⟩
+  have hu : ¬ Meets o := fun hmeets => hmeets.2.2.2 h1 h2 hf
+  constructor
+  · cases hr : (report mk t os sb).ok
+    · rfl
+    · exact absurd (((report_ok_iff mk t os sb h).1 hr).2 _ hm) hu
+  · by_cases hc : o.failure = .couldNotRun
+    · exact Or.inl hc
+    · exact Or.inr (unmet_named mk t os sb h n o hm hu hc)
+
+example : (report ⟨fun _ => false, fun _ => false⟩ 1 [("a", ⟨.none, false, false, false⟩)] [("a", "odd wire format")]).ok = false ∧
+    (report ⟨fun _ => false, fun _ => false⟩ 1 [("a", ⟨.none, false, false, false⟩)] [("a", "odd wire format")]).failedNames = ["a"] := by
+  decide
+
+/-- **The rule of the property, on assignments.**  For every assignment of
+{pass, assertion failure, client error, setup error, no result, could-not-run, nothing recorded}
+× marking × peer feedback to any number of selected cases, plus `extra` selected cases about
+which nothing is known: `report` on the resulting outcome map succeeds exactly when the
+declarative rule `specOk` says so, prints exactly the totals `specTotals`, names exactly the
+failing cases on `FAILED` lines and the expected failures on `INFO` lines. -/
+theorem assignment_report (mk : Marks) (cases : List Case) (extra : Nat) :
+    let r := report mk (cases.length + extra) (finalMap cases) []
+    r.ok = specOk cases extra ∧
+    (⟨r.succeeded, r.failed, r.expectedFailures, r.couldNotRun⟩ : Totals) = specTotals cases extra ∧
+    r.failedNames = specFailedNames cases ∧ r.infoNames = specInfoNames cases := by
+  have e1 : onClass isFailedClass false = Case.countsFailed := funext fun c => (countsFailed_eq c).symm
+  have e2 : onClass isInfoClass false = Case.countsExpected := funext fun c => (countsExpected_eq c).symm
+  have e3 : onClass (fun k => decide (k = Class.succeeded)) false = Case.countsPassed :=
+    funext fun c => (countsPassed_eq c).symm
+  have hS : count .succeeded (finalMap cases) = cases.countP Case.countsPassed := by
+    have := countP_finalMap (fun k => decide (k = Class.succeeded)) cases
+    rw [e3] at this; exact this
+  have hF : count .failed (finalMap cases) + count .unexpectedPass (finalMap cases) = cases.countP Case.countsFailed := by
+    rw [count_failed_add, countP_finalMap, e1]
+  have hI : count .info (finalMap cases) = cases.countP Case.countsExpected := by
+    have := countP_finalMap isInfoClass cases
+    rw [e2] at this
+    rw [← this, ← namesOf_length, namesOf_length_info]
+  have hN : (cases.length + extra - (finalMap cases).length) + count .couldNotRun (finalMap cases)
+      = cases.countP Case.notRun + extra := by
+    have := countP_finalMap (fun k => decide (k = Class.couldNotRun)) cases
+    have hle : cases.countP (fun c => (classOf c).isSome) ≤ cases.length := List.countP_le_length
+    rw [countP_notRun, length_finalMap]
+    unfold count
+    rw [this]
+    omega
+  simp only [report, reportWith, processSideband_nil]
+  refine ⟨?_, ?_, ?_, ?_⟩
+  · rw [hF, hN, Bool.eq_iff_iff]
+    simp only [specOk, Bool.and_eq_true, beq_iff_eq, all_meets_iff]
+    omega
+  · rw [hS, hF, hI, hN]; rfl
+  · rw [namesOf_finalMap, e1]; rfl
+  · rw [namesOf_finalMap, e2]; rfl
+
+/-- non-vacuity / the witness of DESIGN.md: one pass and two cases that never ran is a failure;
+a known-failing case that fails, a flaky one that passes and a passing one are a success. -/
+example : specOk [⟨"a", .pass, .unmarked, false⟩] 2 = false ∧
+    specOk [⟨"a", .assertFail, .failing, false⟩, ⟨"b", .pass, .flaky, false⟩, ⟨"c", .pass, .unmarked, false⟩] 0 = true ∧
+    specOk [⟨"a", .setupErr, .failing, false⟩] 0 = false ∧ specOk [⟨"a", .pass, .unmarked, true⟩] 0 = false := by decide
+
 /-- Before the repair (F03) the verdict ignored cases that could not be run or never produced
 an outcome: one passing case of three selected ones was reported as success. -/
 theorem unrepaired_witness :
